@@ -13,8 +13,8 @@ RULE = ("seeded task histories for nOS-V and/or Nanos6 processes with 1-4 thread
         "non-trivial = at least one body paused, nested or resurrected, or a fault injected")
 REAL = ["ovniemu -l (src/emu/**, incl. task.c/body.c) built from /repo's working tree", "task.c/body.c additionally inside aux/task_harness.c (DFS over all op sequences whose prefix is accepted, depth 5 quick / 7 thorough, 32 symbols, 9+ flag pairs)"]
 STUB = ["libovni replaced by the independent trace writer sim/tracefmt.py", "traced machine and task/body FSMs = sim/world.py reference model"]
-ASSUMPTIONS = ["Nanos6: a task body region is never opened directly over another task body region (the runtime always has a region in between); "
-               "such histories are don't-cares", "body id shown for non-parallel nOS-V tasks is 1 (internal convention) and is compared as such"]
+ASSUMPTIONS = ["a task body opened directly over another task body (nesting over a paused task, or relaxed nesting) is a legal history in both "
+               "models and is generated and demanded", "body id shown for non-parallel nOS-V tasks is 1 (internal convention) and is compared as such"]
 SHRINK_LIST = "actions"
 def shrink_candidates(case):
     if case.get("kind") == "sweep":
